@@ -188,3 +188,50 @@ def t9_backtracking(pattern, flags, w):
         n += 2
     print('no blow-up up to %d repetitions of %r' % (n, w))
     return False
+
+
+def c10_stream(w, python, version):
+    """the witness as a one-line program: significant tokens of the reference interpreter's tokenizer vs parso's"""
+    import json
+    import subprocess
+    from parso.python.tokenize import tokenize, _get_token_collection
+    for v in ((3, 6), (3, 7), (3, 8), (3, 9), (3, 10), (3, 11), (3, 12), (3, 13), (3, 14)):
+        _get_token_collection(v)          # same call order as the check (token collections are memoised per process)
+        if v == tuple(version):
+            break
+    code = ('import tokenize, io, json\n'
+            'out = []\n'
+            'try:\n'
+            '    for t in tokenize.generate_tokens(io.StringIO(%r + "\\n").readline):\n'
+            '        n = tokenize.tok_name[t.type]\n'
+            '        if n in ("COMMENT", "NL", "ENDMARKER", "NEWLINE", "INDENT", "DEDENT"): continue\n'
+            '        out.append([n if n != "ERRORTOKEN" else "ERR", t.string])\n'
+            'except Exception as e:\n'
+            '    out = None\n'
+            'print(json.dumps(out))\n' % (w,))
+    r = subprocess.run([python, '-c', code], capture_output=True, text=True)
+    try:
+        ref = json.loads(r.stdout)
+    except Exception:
+        ref = None
+    if ref is None or any(t[0] == 'ERR' for t in ref):
+        print('the reference tokenizer does not accept %r: outside the claim' % w)
+        return False
+    mine = []
+    fdepth = 0
+    for t in tokenize(w + '\n', version_info=tuple(version)):
+        n = t.type.name
+        if n in ('ENDMARKER', 'NEWLINE', 'INDENT', 'DEDENT'):
+            continue
+        if n == 'FSTRING_START':
+            fdepth += 1
+            mine.append(['STRING', t.string])
+            continue
+        if fdepth:
+            mine[-1][1] += t.prefix + t.string
+            if n == 'FSTRING_END':
+                fdepth -= 1
+            continue
+        mine.append([n if n not in ('ERRORTOKEN', 'ERROR_DEDENT') else 'ERR', t.string])
+    print('reference %r | parso %r' % (ref, mine))
+    return ref != mine
